@@ -1,4 +1,4 @@
-use std::collections::HashMap;
+use std::collections::{HashMap, TryReserveError};
 
 /// An indexed map of VCF strings.
 ///
@@ -61,13 +61,20 @@ impl StringMap {
         }
     }
 
-    pub(super) fn insert_at(&mut self, i: usize, value: String) -> Option<String> {
+    pub(super) fn insert_at(
+        &mut self,
+        i: usize,
+        value: String,
+    ) -> Result<Option<String>, TryReserveError> {
         if i >= self.entries.len() {
+            // `i` is read from the input (`IDX`), i.e., the allocation can fail.
+            let additional = (i - self.entries.len()).saturating_add(1);
+            self.entries.try_reserve(additional)?;
             self.entries.resize(i + 1, None);
         }
 
         self.indices.insert(value.clone(), i);
-        self.entries[i].replace(value)
+        Ok(self.entries[i].replace(value))
     }
 
     fn push(&mut self, value: String) -> usize {
